@@ -21,7 +21,7 @@ RULE = (
     "Hypothesis cases: binary input (<=5/<=5 leaves), <=4 families (consistent leaf orders), free costs in {0..5} with hgt possibly infinite, one "
     "random valid ordered labelling and one random valid unordered labelling (top-down construction).  For every valid species mapping of the "
     "input (all of them up to 1500, else an evenly spaced deterministic subset): node_event of every node, cost() of the plain output, "
-    "reconciliation_cost(), labeling_cost(), cost() of the ordered and unordered labelled outputs == independent recount; the same output objects evaluated again after every unit cost was changed in place must give the recount under the new costs.  One case in 8 also "
+    "reconciliation_cost(), labeling_cost(), cost() of the ordered and unordered labelled outputs == independent recount; the same output objects evaluated again after every unit cost was changed in place must give the recount under the new costs, and one output object per kind whose species mapping is updated in place through up to 24 of the valid mappings must evaluate to the recount of its current content after each update.  One case in 8 also "
     "runs `reconcile` in-process (thl/ext_spfs/superdtl, any|all) and compares the printed 'Minimum cost' with the recount of each written "
     "solution.  evaluations = reconciliations compared.  Non-trivial case: >=3 object leaves, some mapping with >=2 event kinds and a labelling "
     "with >=1 charged segmental loss; distinct by SHA-1 of the case."
@@ -90,6 +90,31 @@ def check(case):
                 raise Violation(f"eval.labeling_cost.{tag}", observed=got_lc, expected=lc, extra={"mapping": m, "labelling": lab})
             if got_tot != rc + lc:
                 raise Violation(f"eval.cost.{tag}", observed=got_tot, expected=rc + lc, extra={"mapping": m, "labelling": lab})
+    # history: one output object per kind whose species mapping is updated in place through a sequence of valid
+    # mappings (a caller walking through mappings with one dictionary): every evaluation reads the current content
+    if len(mappings) >= 2:
+        walk = mappings if len(mappings) <= 24 else [mappings[int(i * len(mappings) / 24)] for i in range(24)]
+        cur = {onode[k]: snode[v] for k, v in walk[0].items()}
+        held = [(None, pkg.guarded(ReconciliationOutput, inp, cur), None)]
+        for ordered, syn, lab in ((True, syn_o, lab_o), (False, syn_u, lab_u)):
+            held.append((ordered, pkg.guarded(SuperReconciliationOutput, input=inp, object_species=cur, syntenies=syn, ordered=ordered), lab))
+        for step, m in enumerate(walk):
+            for obj_kind, obj, _lab in held:
+                obj.object_species.update({onode[k]: snode[v] for k, v in m.items()})
+            pat, counts = inst.rec_profile(m)
+            rc = inst.profile_cost(counts)
+            for ordered, obj, lab in held:
+                kind = "plain" if ordered is None else ("ordered" if ordered else "unordered")
+                for n in inst.onodes:
+                    got = pkg.EVENT_KIND[pkg.guarded(obj.node_event, onode[n])]
+                    if got != _event_name(inst, m, n):
+                        raise Violation("eval.node_event.after-mapping-updated-in-place", observed=got, expected=_event_name(inst, m, n),
+                                        extra={"node": n, "kind": kind, "step": step, "mapping": m, "previous": walk[step - 1] if step else None})
+                exp = rc if ordered is None else rc + times(inst.c["SEGMENTAL_LOSS"], labeling_losses(inst, pat, lab, ordered))
+                got = pkg.guarded(obj.cost)
+                if got != exp:
+                    raise Violation("eval.cost.after-mapping-updated-in-place", observed=got, expected=exp,
+                                    extra={"kind": kind, "step": step, "mapping": m, "previous": walk[step - 1] if step else None})
     # the same output objects evaluated again after the input's unit costs were changed in place
     if mappings:
         m = mappings[-1]
